@@ -65,6 +65,7 @@ def check(run):
             run.note(rid, 'per-site analysis skipped (%s); the clause is decided by C07-DISCOVERY' % e, fn=disc)
     run.attempt(agg, run, p)
     run.attempt(distinct, run, p)
+    run.attempt(counted, run, p)
     from .common import shared_rule
     from .c09 import datepath as _datepath, kind_classes as _kc
     shared_rule(run, _datepath, (run, p, _kc(p)), 'C09-DATEPATH', 'C07-WRITTEN', ' (the minimum and maximum reported are values of the column: a date bound is written with every digit it has, '
@@ -637,3 +638,39 @@ def discovery_table(run, p, rid='C07-DISCOVERY'):
            '%d column summaries evaluated%s' % (n, '' if not bad else '; %d wrong, e.g. (type, records, nulls, min, max, distinct)=%r gives %r, documented %r' % (
                (len(bad),) + bad[0])), fn=disc, detail={'wrong': [repr(b)[:300] for b in bad[:6]]} if bad else None)
     run.floor(rid, n, 500)
+
+
+def counted(run, p):
+    """null counts are counted in the data"""
+    run.rule('C07-COUNTED', 'the number of nulls reported is the number of nulls there are: in the SQL handler every path through '
+                            'get_database_nnull / get_database_nnonnull returns the result of a COUNT query over the column with IS '
+                            '[NOT] NULL - never a constant or a figure derived from the declared schema (SQLite lets a non-integer '
+                            'PRIMARY KEY column hold NULLs; max_nulls and no_duplicates are discovered from these two counts)')
+    sh = p.cls('SQLDatabaseHandler')
+    n = 0
+    for nm, word in (('get_database_nnull', 'IS NULL'), ('get_database_nnonnull', 'IS NOT NULL')):
+        f = sh.methods.get(nm)
+        if f is None:
+            raise AnalysisError('SQLDatabaseHandler.%s vanished' % nm)
+        binds = {}
+        for x in p.own_nodes(f):
+            if isinstance(x, ast.Assign) and len(x.targets) == 1 and isinstance(x.targets[0], ast.Name):
+                binds.setdefault(x.targets[0].id, []).append(x.value)
+
+        def is_query(e, depth=0):
+            if isinstance(e, ast.Call) and isinstance(e.func, ast.Attribute) and e.func.attr in ('execute_scalar', 'execute_all', 'execute'):
+                return True
+            if isinstance(e, ast.Call) and getattr(e.func, 'id', '') in ('int', 'bool') and e.args:
+                return is_query(e.args[0], depth)
+            if isinstance(e, ast.Name) and e.id in binds and depth < 3:
+                return all(is_query(v, depth + 1) for v in binds[e.id])
+            return False
+        rets = [x for x in p.own_nodes(f) if isinstance(x, ast.Return)]
+        bad = [r for r in rets if r.value is None or not is_query(r.value)]
+        texts = [c.value for c in ast.walk(f.node) if isinstance(c, ast.Constant) and isinstance(c.value, str)]
+        has = any('COUNT' in t.upper() and word in ' '.join(t.upper().split()) for t in texts)
+        n += 1
+        run.ob('C07-COUNTED', '%s::%s' % (f.rel, f.short), bool(rets) and not bad and has,
+               '%s: %s' % (f.short, 'every return is the result of a COUNT ... %s query' % word if rets and not bad and has else
+                           ('`%s` returns without counting' % norm(bad[0])[:60] if bad else 'no COUNT ... %s text found' % word)), fn=f, node=bad[0] if bad else None)
+    run.floor('C07-COUNTED', n, 2)
